@@ -1,7 +1,7 @@
 """C07 extended semantics: exact and total on every weakly consistent base."""
 from props import answers
 
-THEOREMS = ["InfOCF.C07_Z", "InfOCF.C07_W", "InfOCF.C07_Lex", "InfOCF.C07_edges", "InfOCF.C07_total", "InfOCF.C07_strict_coincide", "InfOCF.bodyZ_ext_eq", "InfOCF.bodyW_ext_eq", "InfOCF.bodyLex_eq"]
+THEOREMS = ["InfOCF.C07_Z", "InfOCF.C07_W", "InfOCF.C07_Lex", "InfOCF.C07_edges", "InfOCF.C07_total", "InfOCF.C07_strict_coincide", "InfOCF.bodyZ_ext_eq", "InfOCF.bodyW_ext_eq", "InfOCF.bodyLex_eq", "InfOCF.C07_P", "InfOCF.C07_P_ans", "InfOCF.rem_ext_query", "InfOCF.GreedyRun_max"]
 RULE = ("random weakly consistent bases (incl. no finite layer, mixed finite/infinity layers, strongly consistent ones) x 6 queries x "
         "{p, z, w/rc2, w/z3, lex/rc2, lex/z3}, weakly=True; non-trivial = infinity layer non-empty and query contingent; distinct by (base, query)")
 ASSUMPTIONS = ["world enumeration bounds the correspondence to <= 7 atoms; the theorems have no bound"]
